@@ -4,7 +4,7 @@
     side runs the int32-faithful New32 / Len32 (Model/Bitstr32.v; equal to New / Len
     of Model/Bitstr.v whenever toBit + 7 < 2^31 — Proofs/Bitstr32Proofs.v). *)
 From Coq Require Import ZArith List Bool String.
-From Low Require Import Lib.Bits Lib.BitSeq Lib.Bytes Lib.Lex Lib.Val Lib.Pack_bw Model.Bitstr Model.Bitstr32 Spec.BitstrSpec Spec.BitstrSearchSpec.
+From Low Require Import Lib.Bits Lib.BitSeq Lib.Bytes Lib.Lex Lib.Val Lib.Pack_bw Model.Bitstr Model.Bitstr32 Spec.BitstrSpec Spec.BitstrSearchSpec Spec.BitstrDecodeSpec.
 Import ListNotations.
 Open Scope string_scope.
 Open Scope Z_scope.
@@ -17,6 +17,13 @@ Definition c09_oz (o : option Z) : val := match o with Some z => VZ z | None => 
 
 Definition bind {A B} (o : option A) (f : A -> option B) : option B :=
   match o with Some x => f x | None => None end.
+
+Fixpoint c09_bits_eqb (a b : list bool) : bool :=
+  match a, b with
+  | [], [] => true
+  | x :: a', y :: b' => Bool.eqb x y && c09_bits_eqb a' b'
+  | _, _ => false
+  end.
 
 Definition ops_C09 : list opdef := [
   {| op_name := "bitstr.New";
@@ -128,6 +135,20 @@ Definition ops_C09 : list opdef := [
            | Some ks, Some s, Some f, Some t =>
                val_eqb (vzs (spec_search ks (B s f t))) obs
                && match as_zs obs with Some rs => nondecb rs | None => false end
+           | _, _, _, _ => false end
+       | _ => false end |};
+  (* WIDENED: New's output is a well-formed encoding and DEcodes to the bit string of the range
+     (relational reading of "New encodes s[8*floor(from/8), to)") *)
+  {| op_name := "bitstr.New/decode";
+     op_run := fun a => match a with
+       | [s; f; t] => match as_zs s, as_z f, as_z t with
+           | Some s, Some f, Some t =>
+               if range_ok s f t then match New32 s f t with Some e => vzs e | None => VPanic end else VBad
+           | _, _, _ => VBad end
+       | _ => VBad end;
+     op_spec := fun a obs => match a with
+       | [s; f; t] => match as_zs s, as_z f, as_z t, as_zs obs with
+           | Some s, Some f, Some t, Some e => wf_enc e && c09_bits_eqb (decB e) (B s f t)
            | _, _, _, _ => false end
        | _ => false end |}
 ].
